@@ -1,9 +1,10 @@
 """C15 — loading a package is deterministic; user variable files are layered in the order given.
 
 sub `batch`: one Hypothesis case = a batch of N generated package specifications (FlowIR packages built on the shared
-abstract-workflow generator: platforms, package variables, >= 2 environments, top-level folders, explicit manifests,
-references into folders; DSL 2.0 packages with nested sub-workflows, repeated step names that need generated names
-and several distinct / identical environments), each with 0-3 user variable files (YAML and variables.conf flavours)
+abstract-workflow generator: platforms, package variables, >= 2 environments, top-level folders incl. names that
+differ only in case, references into folders; laid out as a package directory or as a single YAML file with an
+explicit manifest; DSL 2.0 packages with nested sub-workflows, repeated step names that need generated names and
+several distinct / identical environments), each with 0-3 user variable files (YAML and variables.conf flavours)
 that define overlapping keys with per-file values, handed over in a drawn order (sometimes with a repeated path),
 plus K child descriptions (PYTHONHASHSEED, key-order seed, directory-listing seed).
 
@@ -20,6 +21,11 @@ Oracle
      belongs to another file is `variable-files-not-layered-in-given-order`.
   2. all K dumps of a package are identical, section by section (`load-differs-across-processes:<section>`), and all
      K children agree on whether a route accepts the package (`load-outcome-differs-across-processes`).
+
+A failing package is isolated (same directory names, same relative variable-file paths, so the same string hashes)
+and reduced by an own bounded reducer (`minimize`): fewer routes / children / factors (key order, listing order set
+back to plain), fewer variable files, components, folders. Hypothesis' shrinker is off (every candidate costs fresh
+interpreters). If the code under test changes while the children of a batch run, the shard ends as a harness error.
 """
 from __future__ import annotations
 
@@ -74,9 +80,30 @@ USER_VALUE = re.compile(r"^(%s)-f(\d+)$" % "|".join(G.KEYS))
 
 # ------------------------------------------------------------------------------------------------------------
 # running the children
+def _code_fingerprint():
+    """(number of files, newest mtime, total size) of the python package under test, without importing it: the
+    children of one batch must all run the same code (a commit to the tree during a batch is not a verdict)."""
+    import importlib.util
+    spec = importlib.util.find_spec("experiment")
+    roots = list(spec.submodule_search_locations or []) if spec else []
+    n = size = 0
+    newest = 0.0
+    for r in roots:
+        for dirpath, dirnames, filenames in os.walk(r):
+            dirnames[:] = sorted(d for d in dirnames if d != "__pycache__")
+            for fn in filenames:
+                if fn.endswith(".py"):
+                    st_ = os.stat(os.path.join(dirpath, fn))
+                    n += 1
+                    size += st_.st_size
+                    newest = max(newest, st_.st_mtime)
+    return n, newest, size
+
+
 def run_children(case, ctx: Ctx):
     """-> [dump of child 0, dump of child 1, ...] (each: {"pkgs": [per package dump]})"""
     root = ctx.mkdtemp()
+    before = _code_fingerprint()
     try:
         docs = []
         for spec in case["pkgs"]:
@@ -112,6 +139,8 @@ def run_children(case, ctx: Ctx):
                     if out[probe] != outs[0][probe]:
                         ctx.rec.count("children_whose_%s_differs_from_child0" % probe)
         ctx.rec.count("child_processes", len(outs))
+        if _code_fingerprint() != before:
+            raise RuntimeError("harness: the code under test changed while the children of one batch were running")
         return outs
     finally:
         shutil.rmtree(root, ignore_errors=True)
@@ -328,7 +357,7 @@ def _record(spec, dumps, ctx: Ctx):
                   "contested_keys": f["contested"], "environments": f["nenv"], "duplicate_steps": f["duplicate_steps"],
                   "components": (d0.get("conf") or {}).get("components"),
                   "outcomes": {r: d0[r]["outcome"] for r in ROUTES if r in d0}}
-        ctx.rec.nt(spec, sample, group=f["kind"])
+        ctx.rec.nt({k: v for k, v in spec.items() if k not in ("slot", "routes")}, sample, group=f["kind"])
 
 
 def check_batch(case, ctx: Ctx):
